@@ -13,7 +13,8 @@ EPS = 2.0 ** -52
 RULE = ("Round trip: n steps, dt -> -dt, n steps.  JANUS (orders 2,4,6,8,10; scale_pos/scale_vel 1e-10..1e-16 "
         "independently; N 2-6 hierarchical or comparable-mass systems; n <= 300; both signs of dt; with and without "
         "read-only pre/post_timestep_modifications / heartbeat observers installed; gravity basic / compensated / "
-        "none; all particles active or N_active<N with testparticle_type 0/1; dt up to 0.1 P_min): the particle "
+        "none; redundant re-assignment of scale_pos/scale_vel/order/integrator/gravity/dt to their current values at "
+        "generated points of either leg (must leave the forward trajectory bitwise unchanged); all particles active or N_active<N with testparticle_type 0/1; dt up to 0.1 P_min): the particle "
         "bit patterns and the integer state p_int must equal those of the initial state put on the grid.  "
         "LEAPFROG, WHFast (4 coordinate systems, default kernel, no correctors, safe_mode 0/1), SABA types without "
         "correctors, EOS with unprocessed splittings on both levels, SEI: the state must return to the initial "
@@ -30,12 +31,14 @@ ASSUMPTIONS = [
     "closer than 0.1 or could come closer than 0.05 on the way out (close encounters are not the regular regime)",
 ]
 JANUS_ORDERS = [2, 4, 6, 8, 10]
+SETTINGS_NAMES = ["scale_pos", "scale_vel", "order", "integrator", "gravity", "dt"]
 SABA_PLAIN = ["1", "2", "3", "4", "10,4", "8,6,4", "10,6,4", "h8,4,4", "h8,6,4", "h10,6,4"]
 EOS_PLAIN = ["lf", "lf4", "lf6", "lf8", "lf4_2", "lf8_6_4"]
 CLASSES = ["%s/monitor:%s" % (a, b) for a in ("janus", "symmetric", "sei") for b in ("none", "pre", "post", "hb")] + \
           ["janus/order%d" % o for o in JANUS_ORDERS] + ["janus/on_grid", "janus/off_grid_image", "janus/dt<0", "janus/gravity:basic", "janus/gravity:compensated",
            "janus/gravity:none", "janus/testparticles:type0", "janus/testparticles:type1",
-           "janus/compensated+testparticles", "janus_tp/compensated+testparticles", "janus_tp/testparticles:type0",
+           "janus/compensated+testparticles"] + ["janus/reassign:" + w for w in SETTINGS_NAMES] + \
+          ["janus/reassign_leg%d" % i for i in range(3)] + ["janus_tp/compensated+testparticles", "janus_tp/testparticles:type0",
            "janus_tp/testparticles:type1"] + \
           ["symmetric/leapfrog", "sei/sei", "sei/gravity", "sei/OMEGAZ"] + \
           ["symmetric/whfast:%s:%d" % (c, s) for c in S.WH_COORDS for s in (0, 1)] + \
@@ -65,6 +68,43 @@ def install_monitors(sim, which, ctx):
     if not which:
         ctx.cls("monitor:none")
     return seen
+
+
+# redundant reconfiguration: re-assign a documented setting to the value it already has (a no-op) at a generated
+# point: leg 0 = forward, 1 = at the turning point, 2 = backward; frac = where in the leg
+SETTINGS = SETTINGS_NAMES
+reconf = st.one_of(st.just([]), st.lists(
+    st.tuples(st.sampled_from([0, 1, 2]), st.sampled_from([0.0, 0.3, 0.5, 0.9]),
+              st.lists(st.sampled_from(SETTINGS), min_size=1, max_size=3, unique=True)), min_size=1, max_size=3))
+
+
+def reassign(sim, which):
+    for w in which:
+        if w == "scale_pos":
+            sim.ri_janus.scale_pos = sim.ri_janus.scale_pos
+        elif w == "scale_vel":
+            sim.ri_janus.scale_vel = sim.ri_janus.scale_vel
+        elif w == "order":
+            sim.ri_janus.order = sim.ri_janus.order
+        elif w == "integrator":
+            sim.integrator = "janus"
+        elif w == "gravity":
+            sim.gravity = sim.gravity
+        elif w == "dt":
+            sim.dt = sim.dt
+
+
+def leg(sim, n, points):
+    """n steps with redundant re-assignments after int(frac*n) steps."""
+    done = 0
+    for frac, which in sorted(points, key=lambda t: t[0]):
+        k = min(n, int(frac * n))
+        if k > done:
+            sim.steps(k - done)
+            done = k
+        reassign(sim, which)
+    if n > done:
+        sim.steps(n - done)
 
 
 # ---------------------------------------------------------------------------------------------------------
@@ -98,6 +138,7 @@ janus_tp_case = st.fixed_dictionaries({
     "gravity": st.sampled_from(["compensated", "compensated", "basic"]),
     "n_active": st.integers(2, 3),
     "testparticle_type": st.sampled_from([0, 1]),
+    "reconf": reconf,
 })
 XYZ = ("x", "y", "z", "vx", "vy", "vz")
 
@@ -130,25 +171,35 @@ def run_janus(c, ctx):
             ints.append(i1)
         snapped.append(q)
         grid.append(ints)
-    sim = rb.new_sim({"G": sysd["G"], "particles": snapped})
-    sim.integrator = "janus"
-    sim.gravity = c["gravity"]
+    dt = c["dt_frac"] * sysd["P_min"] * (-1.0 if c["backward_first"] else 1.0)
+
+    def make():
+        s_ = rb.new_sim({"G": sysd["G"], "particles": snapped})
+        s_.integrator = "janus"
+        s_.gravity = c["gravity"]
+        if c["n_active"] is not None and len(snapped) >= 2:
+            s_.N_active = min(c["n_active"], len(snapped) - 1)
+            s_.testparticle_type = c["testparticle_type"]
+            try:
+                s_.testparticle_hidewarnings = 1
+            except AttributeError:
+                pass
+        s_.ri_janus.order = c["order"]
+        s_.ri_janus.scale_pos = sp
+        s_.ri_janus.scale_vel = sv
+        s_.dt = dt
+        return s_
+    sim = make()
     ctx.cls("gravity:" + c["gravity"])
     if c["n_active"] is not None and len(snapped) >= 2:
-        sim.N_active = min(c["n_active"], len(snapped) - 1)
-        sim.testparticle_type = c["testparticle_type"]
-        try:
-            sim.testparticle_hidewarnings = 1
-        except AttributeError:
-            pass
         ctx.cls("testparticles:type%d" % c["testparticle_type"])
         if c["gravity"] == "compensated":
             ctx.cls("compensated+testparticles")
-    sim.ri_janus.order = c["order"]
-    sim.ri_janus.scale_pos = sp
-    sim.ri_janus.scale_vel = sv
-    dt = c["dt_frac"] * sysd["P_min"] * (-1.0 if c["backward_first"] else 1.0)
-    sim.dt = dt
+    rc = c.get("reconf") or []
+    for lg, frac, which in rc:
+        for w_ in which:
+            ctx.cls("reassign:" + w_)
+        ctx.cls("reassign_leg%d" % lg)
     n = c["n"]
     N = sim.N
     seen = install_monitors(sim, c["monitor"], ctx)
@@ -165,12 +216,30 @@ def run_janus(c, ctx):
     ctx.cls("on_grid" if on_grid and init_bits == expect_bits else "off_grid_image")
     if c["backward_first"]:
         ctx.cls("dt<0")
-    sim.steps(n)
+    leg(sim, n, [(fr, wh) for lg, fr, wh in rc if lg == 0])
     far_int = [[getattr(sim.ri_janus.p_int[i], k) for k in XYZ] for i in range(N)]
     moved = max(abs(far_int[i][j] - grid[i][j]) for i in range(N) for j in range(6))
     far_t = sim.t
+    if any(lg == 0 for lg, fr, wh in rc):
+        # metamorphic: re-assigning a setting to its current value must not change the trajectory at all
+        twin = make()
+        twin.steps(n)
+        twin_int = [[getattr(twin.ri_janus.p_int[i], k) for k in XYZ] for i in range(N)]
+        twin_bits = [[rb.dbits(getattr(twin.particles[i], k)) for k in XYZ] for i in range(N)]
+        here_bits = [[rb.dbits(getattr(sim.particles[i], k)) for k in XYZ] for i in range(N)]
+        if twin_int != far_int or twin_bits != here_bits:
+            bad = [(i, XYZ[j], far_int[i][j] - twin_int[i][j]) for i in range(N) for j in range(6)
+                   if far_int[i][j] != twin_int[i][j] or here_bits[i][j] != twin_bits[i][j]]
+            raise Violation("JANUS order %d: re-assigning %r to their current values during %d forward steps changes "
+                            "the trajectory (%d coordinates; first: particle %d %s by %d grid units)"
+                            % (c["order"], [x for x in rc if x[0] == 0], n, len(bad), bad[0][0], bad[0][1], bad[0][2]),
+                            differing=bad[:12], scale_pos=sp, scale_vel=sv, dt=dt)
+        del twin
+    for lg, fr, wh in rc:
+        if lg == 1:
+            reassign(sim, wh)
     sim.dt = -dt
-    sim.steps(n)
+    leg(sim, n, [(fr, wh) for lg, fr, wh in rc if lg == 2])
     got_bits = [[rb.dbits(getattr(sim.particles[i], k)) for k in XYZ] for i in range(N)]
     got_int = [[getattr(sim.ri_janus.p_int[i], k) for k in XYZ] for i in range(N)]
     if got_bits != expect_bits:
